@@ -13,7 +13,7 @@ TARGET = dict(
                  "filters are subsets of their masks, as every caller in lib/upipe-ts builds them",
                  "ASan + exact-size umem areas + manager refcount audit"],
     execs=[dict(name="merge", harness="harness/C16_psi_merge.c", repo=LIBUPIPE + lib("upipe-ts", only=_TS), engine=MEMFIX, share=1.0, fuzz=dict(quick=(8, 10), thorough=(16, 120))),
-           dict(name="split", harness="harness/C16_psi_split.c", repo=LIBUPIPE + lib("upipe-ts", only=_TS), engine=MEMFIX, share=1.0, case_scale=1.0),
+           dict(name="split", harness="harness/C16_psi_split.c", repo=LIBUPIPE + lib("upipe-ts", only=_TS), engine=MEMFIX, fault_malloc=True, share=1.0, case_scale=1.0),
            dict(name="join", harness="harness/C16_psi_join.c", repo=LIBUPIPE + lib("upipe-ts", only=_TS), engine=MEMFIX, fault_malloc=True, share=1.0, case_scale=0.7)],
     quick=dict(cases=9000, budget=20), thorough=dict(cases=150000, budget=150),
 )
